@@ -1,6 +1,6 @@
 (* C45 — Gathered tables carry every column the statement reads.
    This file holds only statement pins, `exact` proofs and Print Assumptions. *)
-From QV Require Import Base.Util C45.Model C45.Proofs.
+From QV Require Import Base.Util C45.Model C45.Proofs C45.ProofsMerge.
 
 (* collect_scans as coded (plan inputs only): whenever no expression of the optimized plan still carries a subquery
    plan, every table the statement scans is gathered and every column it reads — projected columns, scan-filter
@@ -34,7 +34,56 @@ Theorem C45_collect_same : forall (schema : nat -> list nat) (p : plan),
   known_subquery_expr p = false -> collect_fix schema p = collect_scans schema p.
 Proof. exact collect_same. Qed.
 
+(* ---- the merge of the per-scan requirements (gather.rs: "Widest wins: None absorbs everything") ---- *)
+
+(* for an ARBITRARY sequence of scans in any visiting order — the all-columns scan of a table first, last or between
+   narrower ones — the table is gathered and its gathered column set contains every column any scan of it reads *)
+Theorem C45_merged_contains_every_scan : forall (reqs : list (nat * option (list nat))) (t : nat) (cols : option (list nat)),
+  In (t, cols) reqs ->
+  merged_table (merge_scans reqs) t = true
+  /\ match cols with
+     | None => forall n, merged_col (merge_scans reqs) t n = true
+     | Some l => forall n, In n l -> merged_col (merge_scans reqs) t n = true
+     end.
+Proof. exact merged_contains_every_scan. Qed.
+
+(* the map built scan by scan is exactly "some scan of t wants everything, or some scan of t lists n" ... *)
+Theorem C45_merge_keeps_every_column : forall (reqs : list (nat * option (list nat))) (t n : nat),
+  merged_col (merge_scans reqs) t n = gathered_col reqs t n
+  /\ merged_table (merge_scans reqs) t = gathered_table reqs t.
+Proof. exact merge_keeps_every_column. Qed.
+
+(* ... so the visiting order is irrelevant *)
+Theorem C45_merge_order_irrelevant : forall (a b : list (nat * option (list nat))) (t n : nat), Permutation a b ->
+  merged_col (merge_scans a) t n = merged_col (merge_scans b) t n
+  /\ merged_table (merge_scans a) t = merged_table (merge_scans b) t.
+Proof. exact merge_order_irrelevant. Qed.
+
+(* refuted for a merge whose last arm replaces whatever is there: "all columns" met BEFORE a narrower scan is lost *)
+Theorem C45_wrong_merge_refuted :
+  let all_first := [(1, None); (1, Some [3])]%nat in
+  let all_last := [(1, Some [3]); (1, None)]%nat in
+  let all_middle := [(1, Some [3]); (1, None); (1, Some [3])]%nat in
+  In (1%nat, None) all_first
+  /\ merged_col (merge_scans_wrong all_first) 1 4 = false
+  /\ merged_col (merge_scans_wrong all_last) 1 4 = true
+  /\ merged_col (merge_scans_wrong all_middle) 1 4 = false
+  /\ merged_col (merge_scans all_first) 1 4 = true
+  /\ merged_col (merge_scans all_last) 1 4 = true
+  /\ merged_col (merge_scans all_middle) 1 4 = true.
+Proof. exact wrong_merge_refuted. Qed.
+
+(* end to end: the statement re-run over the tables registered from the final map of the (repaired) walk binds *)
+Theorem C45_gather_plan_rebinds : forall (schema : nat -> list nat) (p : plan),
+  rebinds_map schema (merge_scans (collect_fix schema p)) p = true.
+Proof. exact gather_plan_rebinds. Qed.
+
 Print Assumptions C45_collect_scans_covers_when_no_subquery_exprs.
 Print Assumptions C45_subquery_expr_not_walked_refuted.
 Print Assumptions C45_fix_covers.
 Print Assumptions C45_collect_same.
+Print Assumptions C45_merged_contains_every_scan.
+Print Assumptions C45_merge_keeps_every_column.
+Print Assumptions C45_merge_order_irrelevant.
+Print Assumptions C45_wrong_merge_refuted.
+Print Assumptions C45_gather_plan_rebinds.
